@@ -7,6 +7,7 @@
   library itself synthesises is Internal for a second message on a single-response method.
 -/
 import Proofs.Lemmas.InprocAll
+import Proofs.Lemmas.InprocUnaryAll
 
 namespace InprocStream
 
@@ -139,3 +140,26 @@ example : ∃ s s' evs, run (init 1 1 true)
   simp [translate]
 
 end InprocStream
+
+/-! ### the unary call (`Channel.Invoke`) -/
+namespace InprocUnary
+open InprocStream (Reason HErr Res codeOf translate)
+
+/-- **Unary final status**: with a live context, what `Invoke` returns is exactly the handler's
+    outcome: nil iff the handler returned a response and no error; the handler's error, translated;
+    Internal if it returned neither. -/
+theorem C02_unary_status_eq_handler (cap : Nat) (s : St) (h : Reachable cap s) (hctx : s.ctx = none)
+    (r : Res) (hr : s.result = some r) : ∃ ret, s.hRet = some ret ∧ r = expectedU ret := by
+  obtain ⟨_, _, hok⟩ := all_unary cap s h
+  rcases hok.res r hr with ⟨rr, h1, _⟩ | h1
+  · simp [hctx] at h1
+  · exact h1
+
+/-- **Success only with the complete response**: nil from `Invoke` means the caller holds the
+    handler's response value. -/
+theorem C02_unary_success_is_complete (cap : Nat) (s : St) (h : Reachable cap s) (hr : s.result = some .ok) :
+    ∃ x, s.hRet = some (some x, none) ∧ s.respCopied = some x := by
+  obtain ⟨x, h1, h2, _⟩ := (all_unary cap s h).2.2.okc hr
+  exact ⟨x, h1, h2⟩
+
+end InprocUnary
